@@ -53,6 +53,11 @@ func NewFuzzySearcher(indexReader search.Reader, term string,
 		return nil, fmt.Errorf("invalid fuzziness, negative")
 	}
 
+	if fuzziness == 0 {
+		// no edits allowed, only the term itself can match
+		return NewTermSearcher(indexReader, term, field, boost, scorer, options)
+	}
+
 	// Note: we don't byte slice the term for a prefix because of runes.
 	prefixTerm := ""
 	for i, r := range term {
